@@ -47,6 +47,7 @@ inductive Expr where
   | callResult (f : Nat)
   | arrayLength (h : Nat)
   | alias (h : Nat)            -- DXIL mem2reg: value of an earlier expression
+  | phi (incs : List (Nat × Nat × Nat))   -- DXIL mem2reg: (PredKey, CaseIdx, value) per structured edge
   | other (name : String)
   deriving Repr, Inhabited
 
@@ -153,6 +154,10 @@ def parseExpr : Sexp → Option Expr
   | .list [.atom "callresult", f] => do some (.callResult (← f.nat?))
   | .list [.atom "arraylength", h] => do some (.arrayLength (← h.nat?))
   | .list [.atom "alias", h] => do some (.alias (← h.nat?))
+  | .list (.atom "phi" :: incs) => do
+      some (.phi (← incs.mapM (fun i => match i with
+        | .list [k, c, v] => do some ((← k.nat?), (← c.nat?), (← v.nat?))
+        | _ => none)))
   | .list (.atom n :: _) => some (.other n)
   | _ => none
 
@@ -269,6 +274,9 @@ structure Frame where
   fn : Fn
   args : Array Val
   cache : Array (Option Val)
+  /-- the structured edge through which the last `if` / `switch` was left:
+  1 = accept, 2 = reject, 100 + i = body of switch case i (for ExprPhi) -/
+  edge : Nat := 0
   deriving Inhabited
 
 structure St where
@@ -446,6 +454,13 @@ mutual
               pure (.u32 (BitVec.ofNat 32 xs.length))
             | _ => throw (.stuck "arrayLength of non-pointer")
         | .alias x => g x
+        | .phi incs => do
+            -- PhiPredIfAccept = 0, PhiPredIfReject = 1, PhiPredSwitchCase = 4 (+ CaseIdx)
+            let hit := incs.find? (fun (i : Nat × Nat × Nat) =>
+              (i.1 == 0 && fr.edge == 1) || (i.1 == 1 && fr.edge == 2) || (i.1 == 4 && fr.edge == 100 + i.2.1))
+            match hit with
+            | some i => g i.2.2
+            | none => throw (.unsupported "phi without incoming for the edge taken")
         | .other n => throw (.unsupported ("expression " ++ n))
         | _ => g h
 end
@@ -483,7 +498,8 @@ mutual
       | .block b => execBlock m fuel b st frId fr
       | .ifs c a r => do
         let cv ← opt (truthy (← getVal m st frId fr c)) "if condition"
-        execBlock m fuel (if cv then a else r) st frId fr
+        let (fl, st, fr) ← execBlock m fuel (if cv then a else r) st frId fr
+        pure (fl, st, { fr with edge := if cv then 1 else 2 })
       | .switch sel cases => do
         let sv ← getVal m st frId fr sel
         let key ← opt (match sv with | .i32 v => some v.toNat | .u32 v => some v.toNat | _ => none) "switch selector"
@@ -493,7 +509,7 @@ mutual
           | none => cases.findIdx? (fun c => c.1 == none)
         match idx with
         | none => pure (.next, st, fr)
-        | some i => execCases m fuel (cases.drop i) st frId fr
+        | some i => execCases m fuel i (cases.drop i) st frId fr
       | .loop body cont bi => execLoop m fuel body cont bi st frId fr
       | .brk => pure (.brk, st, fr)
       | .cont => pure (.cont, st, fr)
@@ -524,13 +540,14 @@ mutual
         | none => pure (.next, st, fr)
       | .other n => throw (.unsupported ("statement " ++ n))
 
-  def execCases (m : Module) : Nat → List (Option Nat × Bool × List Stmt) → St → Nat → Frame → M (Flow × St × Frame)
-    | 0, _, _, _, _ => throw .fuel
-    | _, [], st, _, fr => pure (.next, st, fr)
-    | fuel + 1, (_, ft, body) :: rest, st, frId, fr => do
+  def execCases (m : Module) : Nat → Nat → List (Option Nat × Bool × List Stmt) → St → Nat → Frame → M (Flow × St × Frame)
+    | 0, _, _, _, _, _ => throw .fuel
+    | _, _, [], st, _, fr => pure (.next, st, fr)
+    | fuel + 1, idx, (_, ft, body) :: rest, st, frId, fr => do
       let (fl, st, fr) ← execBlock m fuel body st frId fr
+      let fr := { fr with edge := 100 + idx }
       match fl with
-      | .next => if ft then execCases m fuel rest st frId fr else pure (.next, st, fr)
+      | .next => if ft then execCases m fuel (idx + 1) rest st frId fr else pure (.next, st, fr)
       | .brk => pure (.next, st, fr)          -- break leaves the switch
       | other => pure (other, st, fr)
 
